@@ -17,6 +17,7 @@ their times), Kenamond3 (common rotation/reflection of detonator and points abou
 expansion (rotation/reflection of the points about the origin); burn time equal at the transformed point.
 """
 import math
+import os
 
 import numpy as np
 
@@ -99,6 +100,9 @@ def tasks(tier, seed):
     for fam in ("Kenamond1", "Kenamond2", "Kenamond3", "CylindricalExpansion"):
         for dev in burn_roots(fam, tier):
             out.append({"kind": "burn", "family": fam, "dev": dev, "depth": DEPTH[tier], "tier": tier})
+    only = os.environ.get("XPMC_C09_ONLY")      # development only (burn | IGEOS | GenEOS); the evidence then says exhaustive: false
+    if only:
+        out = [t for t in out if only in (t["kind"], t.get("solver"))]
     return out
 
 
@@ -575,4 +579,7 @@ def postprocess(agg, tier):
             if k_.startswith("max_"):
                 mx[k_] = max(mx.get(k_, 0), v)
     agg["counters"].update(mx)
+    if os.environ.get("XPMC_C09_ONLY"):
+        agg["counters"]["development_task_filter"] = 1
+        return {"capped": True}
     return {}
